@@ -44,6 +44,7 @@ class KnapsackH(Harness):
     THOROUGH = ["Knapsack@6"] + [f"Knapsack@6~{k}" for k in range(8)] + ["Knapsack@5~c"]
     INVALID = "terminate"
     REWARD_VARIANTS = [{}, {"reward_fn": _sparse()}]
+    REF_REWARD_VARIANTS = True   # ref_step follows the configured reward function (C09 runs the variants too)
     DIFF_ULPS = 4     # sparse reward: XLA dot vs sequential float32 sum of the encoding
 
     def __init__(self, cfg, **over):
